@@ -63,6 +63,13 @@ where
         Signature::<CL03<CS>>::sign_multiattr(pk, &key.sk, &bases, &msgs)
     };
     let cpk = CL03CommitmentPublicKey::generate::<CS>(Some(pk.N.clone()), Some(n));
+    // a third of the honest generations follow a request that is refused on the same thread (a hidden position
+    // beyond the attribute count after the valid ones): what a refusal leaves behind must not reach the next proof
+    if vals.first().map(|v| v.mod_u(3) == 0).unwrap_or(false) {
+        let mut bad = hidden.to_vec();
+        bad.push(n + 4);
+        let _ = catch(|| PoKSignature::<CL03<CS>>::proof_gen(sig.cl03Signature(), &cpk, pk, &bases, &msgs, &bad));
+    }
     let proof = catch(|| PoKSignature::<CL03<CS>>::proof_gen(sig.cl03Signature(), &cpk, pk, &bases, &msgs, hidden)).map_err(|e| format!("proof_gen: {}", e))?;
     Ok(Honest { cpk, bases, vals, msgs, hidden: hidden.to_vec(), revealed, sig, proof })
 }
@@ -126,6 +133,30 @@ where
         _ => return rep.fail(ck, "proof-json-roundtrip", "the proof does not survive serde_json".into(), cj(json!(null))),
     }
 
+    // the flow with every object crossing a wire between the steps (every second case): the signature through its
+    // octets and through JSON, key, bases and commitment key through JSON, then a proof from the decoded copies,
+    // itself through JSON, verified with the decoded key material
+    if c.seed % 2 == 1 {
+        let wire = || -> Option<bool> {
+            let sig_b = Signature::<CL03<CS>>::from_bytes(&h.sig.to_bytes());
+            let sig_j: Signature<CL03<CS>> = serde_json::from_str(&serde_json::to_string(&sig_b).ok()?).ok()?;
+            let pk_j: CL03PublicKey = serde_json::from_str(&serde_json::to_string(pk).ok()?).ok()?;
+            let cpk_j: CL03CommitmentPublicKey = serde_json::from_str(&serde_json::to_string(&h.cpk).ok()?).ok()?;
+            let bases_j: Bases = serde_json::from_str(&serde_json::to_string(&h.bases).ok()?).ok()?;
+            let msgs_j: Vec<CL03Message> = serde_json::from_str(&serde_json::to_string(&h.msgs).ok()?).ok()?;
+            let p = PoKSignature::<CL03<CS>>::proof_gen(sig_j.cl03Signature(), &cpk_j, &pk_j, &bases_j, &msgs_j, &hidden);
+            let p_j: PoKSignature<CL03<CS>> = serde_json::from_str(&serde_json::to_string(&p).ok()?).ok()?;
+            let revealed_j: Vec<CL03Message> = (0..n).filter(|i| !hidden.contains(i)).map(|i| msgs_j[i].clone()).collect();
+            Some(p_j.proof_verify(&cpk_j, &pk_j, &bases_j, &revealed_j, &hidden, n))
+        };
+        rep.eval(ck, 1);
+        match catch(wire) {
+            Ok(Some(true)) => rep.class("flow-with-objects-through-json-between-steps"),
+            Ok(Some(false)) => return rep.fail(ck, "honest-signature-proof-rejected:objects-through-json", format!("with signature, keys, bases and proof serialised and decoded between the steps the honest proof is refused (hidden {:?} of {})", hidden, n), cj(json!(null))),
+            Ok(None) => return rep.fail(ck, "json-roundtrip-mid-flow", "an object of the flow does not survive serde_json".into(), cj(json!(null))),
+            Err(e) => return rep.fail(ck, "honest-generation-failed", format!("flow with objects through JSON: {}", e), cj(json!(null))),
+        }
+    }
     // ---- negative ------------------------------------------------------------------------------
     let reject = |family: &str, acc: bool, detail: String| -> CheckResult {
         rep.eval(ck, 1);
@@ -317,6 +348,13 @@ where
     }
     match catch(|| PoKSignature::<CL03<CS>>::proof_gen(h.sig.cl03Signature(), &h.cpk, pk, &h.bases, &h.msgs, &hidden)) {
         Ok(p9) => {
+            // this fresh object is FIRST offered with statements that are refused (another hidden list of another
+            // length, another commitment key, another signer key), and only then with its own
+            let shorter: Vec<usize> = hidden.iter().cloned().skip(1).collect();
+            let longer: Vec<usize> = { let mut l2 = hidden.clone(); if let Some(x) = (0..n).find(|i| !hidden.contains(i)) { l2.push(x); l2.sort(); } l2 };
+            let _ = ver(&p9, &h.cpk, pk, &h.bases, &h.revealed, &shorter, n);
+            let _ = ver(&p9, &h.cpk, pk, &h.bases, &h.revealed, &longer, n);
+            let _ = ver(&p9, &CL03CommitmentPublicKey::generate::<CS>(Some(pk.N.clone()), Some(n)), pk, &h.bases, &h.revealed, &hidden, n);
             if !ver(&p9, &h.cpk, pk, &h.bases, &h.revealed, &hidden, n) {
                 return rep.fail(ck, "honest-signature-proof-rejected-after-a-refusal", format!("a proof generated after the refused requests of this case does not verify (hidden {:?} of {})", hidden, n), cj(json!({"after": "negative families", "generated": "after"})));
             }
@@ -445,7 +483,7 @@ pub fn run(ctx: &Ctx, rep: &Report) -> Meta {
     }
     Meta {
         rule: "signer key from a pool, n attributes, EVERY hidden set (none ... all) for n = 1..3 (quick) / 1..5 (thorough) plus generated cases, signatures issued directly and through blind issuance, commitment key over the issuer modulus; \
-               positive: proof_verify true with the revealed attributes in index order, proof survives JSON; negative: every revealed attribute changed, swaps, other signer key (also b or c alone changed), other bases, other commitment key, single-field edits of the key material (commitment key N +- 2, h, g_0 and the g_i of hidden positions squared; signer N + 2; every base a_i that matters squared), \
+               positive: proof_verify true with the revealed attributes in index order, proof survives JSON, in every second case the whole flow is repeated with signature (octets and JSON), keys, bases, commitment key, attributes and proof serialised and decoded between the steps; negative: every revealed attribute changed, swaps, other signer key (also b or c alone changed), other bases, other commitment key, single-field edits of the key material (commitment key N +- 2, h, g_0 and the g_i of hidden positions squared; signer N + 2; every base a_i that matters squared), \
                another hidden set of the same size, n+1 / n-1 (also n+1 and n+3 against key material with spare bases and the true revealed list), range_proof_e replaced by an honest range proof for another commitment, every composite node of the serialised proof replaced by the node at the same path of a second honest proof for other hidden values (same key, bases, commitment key, positions; every second case), and integer leaves of the serialised proof perturbed by +1, -1, := 0, := sibling, one high bit flipped, +2^k for k in {128, 160, 256, 300} \
                (24-40 sampled perturbations per proof in quick, every leaf in thorough's fixed list); hidden-position list extended by positions >= n (appended, prepended) and by a revealed position, an honest range proof for another value transplanted onto Ce, n = 6 and 8, volume: 1400 (quick) / 12000 (thorough) honest proofs of the cheapest shapes each verified, every attribute count 9..=24 (quick) / 9..=48 (thorough) with two or three hidden positions including the last; after the negative families the honest proof and a freshly generated one verify again on the same thread; a refusal by panic counts as not verifying; non-trivial = (n, U) != (3, {0}); evaluations = verifier decisions"
             .into(),
